@@ -162,6 +162,9 @@ def prog_history(kit, actor, doc, elem, cfg):
     w = kit.w
     model = spec.model_for_element(elem)
     sub = sub_alphabet(rng, model)
+    amb = spec.ambiguous_names(elem)
+    if amb and rng.random() < 0.7:
+        sub = sorted(set(sub[:4]) | set(rng.sample(amb, min(len(amb), 3))))
     shape = cfg.get('shape') or rng.choice(SHAPES)
     nsteps = cfg.get('nsteps') or rng.randint(3, cfg.get('nsteps_max', 14) if rng.random() < 0.5 else 14)
     wts = dict(add=6, add_bad=1.5, add_foreign=0.4, add_to_leaf=0.25, readd=0.5, remove_stale=0.25, weird=0.0, replace_raw=0.25,
@@ -171,6 +174,8 @@ def prog_history(kit, actor, doc, elem, cfg):
                check_ic=0.2, complete=0.8, read=0.6, attr=0.4, attr_bad=0.2, value_bad=0.2, remove_foreign=0.2,
                deep=0.5)
     wts.update(cfg.get('weights') or {})
+    if amb and wts.get('fwd', 0) > 0:
+        wts['fwd'] = max(wts['fwd'], 2.0)
     checked = cfg.get('root_checked', True)
     yield {'op': 'NEW', 'a': actor, 'doc': doc, 'c': kit.rootspec(elem, checked)}
     root = w.docs.get(doc)
@@ -473,7 +478,11 @@ def pick_elements(rng, n, index=None):
     names = spec.ELEMENT_CONTENT_ELEMENTS
     out = []
     for k in range(n):
-        if index is not None and k == 0:
+        if index is not None and k == 0 and index % 5 == 3:
+            # a fifth of the runs: the few types in which a child name has several slots (note, lyric, metronome,
+            # credit, part-list) - where first-fit placement, forward indices and intelligent choice interact
+            out.append(spec.AMBIGUOUS_ELEMENTS[(index // 5) % len(spec.AMBIGUOUS_ELEMENTS)])
+        elif index is not None and k == 0:
             out.append(names[index % len(names)])
         else:
             out.append(rng.choice(names))
